@@ -103,6 +103,20 @@ func init() {
 				}
 			}
 		}},
+		Stream{"verify.lengths", func(c *Ctx) {
+			// every algorithm on messages of every boundary length, empty to multi-kilobyte (nil and empty both): genuine signatures verify
+			r := c.R
+			lens := []int{0, 1, 2, 31, 32, 33, 55, 56, 63, 64, 65, 111, 112, 127, 128, 129, 1000, 5000, 70000}
+			for _, alg := range allAlgs {
+				kp := genKeyPair(r, alg)
+				key := hx(kp.COSE(true))
+				for _, l := range lens {
+					msg := r.Bytes(l)
+					op := M{"op": "cose.verify", "key": key, "data": hx(msg), "sig": hx(kp.Sign(msg)), "class": fmt.Sprintf("alg%d-len%d", alg, l), "expect": true}
+					executors["cose.verify"](c, "verify.lengths", op)
+				}
+			}
+		}},
 		Stream{"verify.bitflips", func(c *Ctx) {
 			r := c.R
 			for _, alg := range allAlgs {
